@@ -328,3 +328,39 @@ package sem
 //@   props E00
 //@   ensures[inc-count] r == len(m)
 //@   ensures[bad-zero] len(m) > 0 ==> r == 0
+
+// ---- third batch: interference
+//@ func twoLoads(c) r
+//@   props E00
+//@   requires c != nil
+//@   concurrent E00 and sequential
+//@   shared c.state
+//@   ensures[ok-alone-they-agree] r
+//@   ensures[tm-bad-they-agree]{E00} r
+
+//@ func claim(c) r
+//@   props E00
+//@   requires c != nil
+//@   concurrent E00
+//@   shared c.state
+//@   ensures[ok-own-cas]{E00} r <==> wrote(c.state, 0, 1)
+//@   onwrite[ok-legal-edge]{E00} c.state: prev == 0 && new == 1
+
+//@ func claimLoadStore(c) r
+//@   props E00
+//@   requires c != nil
+//@   concurrent E00
+//@   shared c.state
+//@   onwrite[bad-legal-edge]{E00} c.state: prev == 0 && new == 1
+
+//@ func plainRead(c) r
+//@   props E00
+//@   requires c != nil
+//@   concurrent E00
+//@   shared c.state
+
+//@ guarded table by tabMu {E00}
+
+//@ func readTwice(k) r
+//@   props E00
+//@   ensures[bad-same-after-relock]{E00} r
